@@ -118,6 +118,9 @@ class LoopTx(ast.NodeTransformer):
         key = f"{self.fname}#{k}"
         names = _assigned_names(body)
         names = [n for n in names if not n.startswith("__pv_once")]
+        for extra in getattr(self.specs.get(k), "modifies", ()) or ():
+            if extra not in names:
+                names.append(extra)  # objects mutated in place (list.append, item stores)
         out = []
         out += ast.parse(f"__pv_l = __pv.loop_init({key!r}, dict(locals()), {names!r})").body
         for n in names:
@@ -173,8 +176,9 @@ class LoopSpec:
     havoc(env, names) -> {name: fresh value} (default: by type of the current value);
     ghost_step(env): called before the step check (lets the contract update ghost state)"""
 
-    def __init__(self, invariant, variant=None, havoc=None, ghost_step=None, variant_lb=0, variant_dec=None, at_exit=None):
+    def __init__(self, invariant, variant=None, havoc=None, ghost_step=None, variant_lb=0, variant_dec=None, at_exit=None, modifies=()):
         self.invariant, self.variant, self.havoc, self.ghost_step = invariant, variant, havoc, ghost_step
+        self.modifies = tuple(modifies)  # names of objects mutated in place by the body
         self.at_exit = at_exit  # at_exit(env, broke): may emit obligations about the loop's exit state
         self.variant_lb = variant_lb
         self.variant_dec = variant_dec  # minimal decrease (None: strict decrease of an integer)
